@@ -215,6 +215,10 @@ func init() {
 				for f := range pkgFuncsReturningError(p, "pkg/ref", "") {
 					m[f] = true
 				}
+				// the steps of prune itself (runWithPbar and the functions it runs)
+				for f := range pkgFuncsReturningError(p, "pkg/prune", "") {
+					m[f] = true
+				}
 				q, err := p.MustFuncs("pkg/ref.(*CommitsQueue).Insert", "pkg/ref.(*CommitsQueue).PopInsertParents")
 				if err != nil {
 					return nil, err
